@@ -273,6 +273,39 @@ def run(ctx):
            "the open/extend state of the gap penalty must be reset for every sequence: otherwise a sequence that ends in a "
            "gap makes the first gap of the next sequence an extension (score differs from the column-wise definition)",
            loops[0].lineno)
+    # substitution term: the pair (i, j) with i < j is scored as matrix[symbol of row i, symbol of row j] - the matrix is
+    # indexed (first alphabet, second alphabet) and need not be symmetric
+    from ..exprnorm import summarize_block, subst as _subst
+    pair = [(lo, li) for lo in ast.walk(sc) if isinstance(lo, ast.For) and isinstance(lo.target, ast.Name)
+            for li in lo.body if isinstance(li, ast.For) and isinstance(li.target, ast.Name) and isinstance(li.iter, ast.Call)
+            and call_name(li.iter) == "range" and len(li.iter.args) == 2 and same_expr(li.iter.args[0], f"{lo.target.id} + 1")]
+    ctx.need(len(pair) == 1, "loop over the row pairs i < j of score()")
+    lo, li = pair[0]
+    benv = summarize_block([b for b in li.body if isinstance(b, ast.Assign)]).env
+    lookups = [n for n in ast.walk(li) if isinstance(n, ast.Subscript) and isinstance(n.value, ast.Name) and n.value.id == "matrix"]
+    ctx.need(len(lookups) == 1, "substitution matrix lookup of score()")
+    lk = _subst(lookups[0], benv)
+    ctx.ob("R6.substitution-orientation", ALN, "score", ast.unparse(lk), same_expr(lk, f"matrix[column[{lo.target.id}], column[{li.target.id}]]"),
+           "the score of rows i < j is matrix[code of row i, code of row j]: with a directed (non-symmetric) matrix or two "
+           "alphabets the transposed lookup gives another score or an IndexError", lookups[0].lineno)
+    # get_symbols: every row is decoded with the alphabet of ITS sequence
+    gsy = al.func("get_symbols")
+    row_loops = [lp for lp in ast.walk(gsy) if isinstance(lp, ast.For) and isinstance(lp.target, ast.Name)
+                 and any(isinstance(c, ast.Call) and isinstance(c.func, ast.Attribute) and c.func.attr == "decode_multiple" for c in ast.walk(lp))]
+    ctx.need(len(row_loops) == 1, "row loop of get_symbols()")
+    rl = row_loops[0]
+    renv = summarize_block([b for b in rl.body if isinstance(b, ast.Assign) and isinstance(b.targets[0], ast.Name)]).env
+    dec = next(c for c in ast.walk(rl) if isinstance(c, ast.Call) and isinstance(c.func, ast.Attribute) and c.func.attr == "decode_multiple")
+    recv = _subst(dec.func.value, renv)
+    pre = summarize_block([b for b in gsy.body if isinstance(b, ast.Assign) and isinstance(b.targets[0], ast.Name)]).env
+    recv = _subst(recv, {k: v for k, v in pre.items() if k not in renv})
+    ctx.ob("R6.row-decoded-with-own-alphabet", ALN, "get_symbols", ast.unparse(recv)[:70],
+           same_expr(recv, f"alignment.sequences[{rl.target.id}].get_alphabet()") or same_expr(recv, f"alignment.sequences[{rl.target.id}].alphabet"),
+           "row i of the symbol matrix must be decoded with the alphabet of sequence i (the sequences of an alignment may have "
+           "different alphabets)", dec.lineno)
+    from ..lints import loop_updates_kept
+    for rel_ in (FCONV, ALN, CIG):
+        loop_updates_kept(ctx, rel_, "R6.loop-updates-kept")
     gi = al.func("get_sequence_identity")
     git = ast.unparse(gi)
     uses_any = any(isinstance(c, ast.Call) and isinstance(c.func, ast.Attribute) and c.func.attr == "any" and "codes" in ast.unparse(c.func.value)
@@ -303,6 +336,10 @@ def run(ctx):
 
 
 MUTANTS = [
+    Mutant("score-matrix-transposed", ALN, "                    score += matrix[code_i, code_j]\n", "                    score += matrix[code_j, code_i]\n", "R6.substitution-orientation"),
+    Mutant("symbols-first-alphabet", ALN, "        alphabet = alignment.sequences[i].get_alphabet()\n", "        alphabet = alignment.sequences[0].get_alphabet()\n", "R6.row-decoded-with-own-alphabet"),
+    Mutant("gap-chars-loops-interchanged", FCONV, "    for char in additional_gap_chars:\n        for i, seq_str in enumerate(seq_strings):\n",
+           "    for i, seq_str in enumerate(seq_strings):\n        for char in additional_gap_chars:\n", "R6.loop-updates-kept", "get_alignment"),
     Mutant("n-as-deletion", CIG, '    "N": CigarOp.INTRON,', '    "N": CigarOp.DELETION,', "R1.symbol-table"),
     Mutant("softclip-no-advance", CIG, "            clip_mask[i : i + length] = False\n            seg_pos += length\n", "            clip_mask[i : i + length] = False\n", "R2.consumes"),
     Mutant("insertion-advances-ref", CIG, "            trace[i : i + length, 0] = -1\n            trace[i : i + length, 1] = np.arange(seg_pos, seg_pos + length)\n            seg_pos += length",
